@@ -1,8 +1,5 @@
 SPECIFICATION Spec
 CONSTANTS
-  MaxItems = 3
-  MaxBlocks = 1
-  MaxDepth = 1
-  Small = TRUE
+  Families = {"flat5", "nest1w", "nest2w"}
 INVARIANT Inv
 CHECK_DEADLOCK FALSE
